@@ -51,7 +51,15 @@ def main():
     else:
         agent_meta = json.load(open(os.path.join(dst, "meta.json"))).get("agent", {})
     if os.path.isdir(f"{wt}/SEED"):
-        os.rename(f"{wt}/SEED", f"{wt}/_SEED")
+        # (a directory named SEED would be picked up by ./... as a package)
+        if os.path.isdir(f"{wt}/_SEED"):
+            for child in os.listdir(f"{wt}/SEED"):
+                if os.path.exists(f"{wt}/_SEED/{child}"):
+                    shutil.rmtree(f"{wt}/_SEED/{child}")
+                shutil.move(f"{wt}/SEED/{child}", f"{wt}/_SEED/{child}")
+            os.rmdir(f"{wt}/SEED")
+        else:
+            os.rename(f"{wt}/SEED", f"{wt}/_SEED")
     meta = {"property": agent_meta.get("property", pid), "seed": os.path.basename(dst), "agent": agent_meta, "needs": agent_meta.get("needs", ""), "summary": agent_meta.get("summary", "")}
     ver = {}
     sh("git checkout -- . && rm -f zz_seed_demo_test.go */zz_seed_demo_test.go", wt)
